@@ -69,6 +69,14 @@ def _srv_F(short=True):
                        kex=['diffie-hellman-group1-sha1'], key=['ssh-rsa'], enc=['3des-cbc'], mac=['hmac-md5'])
 
 
+def _srv_DUP(short=True):
+    # a (legal) KEXINIT that repeats names: probing is per distinct algorithm, not per occurrence
+    key = ['ssh-ed25519', 'rsa-sha2-512', 'ssh-ed25519', 'rsa-sha2-256', 'rsa-sha2-512']
+    gexn = ['diffie-hellman-group-exchange-sha256'] * 4 + ['diffie-hellman-group-exchange-sha1'] * 3
+    return peer.Server(label='DUP', kex=['curve25519-sha256'] + gexn + ['curve25519-sha256'], key=key, banner=OPENSSH,
+                       host_keys=peer.standard_host_keys(key), gex=peer.GexPolicy([2048, 4096] if short else [], peer.STRICT))
+
+
 ARCHETYPES = {
     'A': dict(make=_srv_A, opts=[], role='server'),
     'B': dict(make=_srv_B, opts=[], role='server'),
@@ -79,6 +87,7 @@ ARCHETYPES = {
     'E1': dict(make=_srv_E1, opts=['-1'], role='server'),
     'F': dict(make=_srv_F, opts=[], role='server'),
     'G': dict(make=None, opts=[], role='client'),
+    'DUP': dict(make=_srv_DUP, opts=[], role='server'),
 }
 
 
@@ -234,7 +243,7 @@ def judge_c19(res, arch, plan, rate):
             if t in HK.RSA_FAMILY:
                 seen.update(HK.RSA_FAMILY)
             seen.add(t)
-    gex_algs = [k for k in adv_kex if k in peer.GEX_NAMES]
+    gex_algs = sorted(set(k for k in adv_kex if k in peer.GEX_NAMES))      # per offered algorithm, however often it is listed
     init = initial_conns(arch)
     rate_cap = 38 + 3 + 20 if rate else 0     # completed + concurrent in flight + attempts during the 1.5 s window
     cap = init + probed_types + 9 * len(gex_algs) + rate_cap
